@@ -380,3 +380,84 @@ Definition dbc_expressible (m : matrix) : Prop :=
   Forall (fun n => (2 <= length n)%nat) (m_ecus m) /\ ~ In vector_xxx (m_ecus m) /\
   NoDup (map fst (m_vtabs m)) /\ Forall (fun t => keys_nodup (snd t)) (m_vtabs m) /\
   NoDup (map f_id (m_frames m)) /\ Forall (frame_expressible (m_ecus m)) (m_frames m).
+
+(* ------------------------------------------------------------------------------------------------------------ *)
+(* 9. numbers in SG_ lines: dbc.format_float(Decimal) (~53-62) on top of str(Decimal) (_pydecimal.Decimal.__str__, capitals = 1),
+      and Decimal(text) for the texts the writer produces.  A finite Decimal is (sign, _int digit string, exponent); the digit
+      string has no leading zero unless it is "0". *)
+Definition dec := (bool * text * Z)%type.
+Definition zeros (k : nat) : text := repeat 48 k.
+Definition is_digit (c : Z) : bool := (48 <=? c) && (c <=? 57).
+
+Definition dec_str (d : dec) : text :=
+  match d with
+  | (neg, ds, e) =>
+      let n := Z.of_nat (length ds) in
+      let leftdigits := e + n in
+      let dotplace := if (e <=? 0) && (-6 <? leftdigits) then leftdigits else 1 in
+      let intfrac :=
+        if dotplace <=? 0 then 48 :: 46 :: zeros (Z.to_nat (- dotplace)) ++ ds
+        else if n <=? dotplace then ds ++ zeros (Z.to_nat (dotplace - n))
+        else firstn (Z.to_nat dotplace) ds ++ 46 :: skipn (Z.to_nat dotplace) ds in
+      let x := leftdigits - dotplace in
+      let exp_str := if x =? 0 then [] else 69 :: (if 0 <=? x then 43 else 45) :: nat_text (Z.to_N (Z.abs x)) in
+      (if neg then [45] else []) ++ intfrac ++ exp_str
+  end.
+
+(* s.endswith('.0') -> s[:-2] *)
+Fixpoint strip_dot0 (s : text) : text :=
+  match s with
+  | [] => []
+  | c :: r =>
+      match r with
+      | [b] => if (c =? 46) && (b =? 48) then [] else s
+      | _ => c :: strip_dot0 r
+      end
+  end.
+(* s.split(ch) at the first occurrence *)
+Fixpoint split_at (ch : Z) (s : text) : text * option text :=
+  match s with
+  | [] => ([], None)
+  | c :: r => if c =? ch then ([], Some r) else (c :: fst (split_at ch r), snd (split_at ch r))
+  end.
+Definition rjust3 (t : text) : text := zeros (3 - length t) ++ t.
+Definition format_float (d : dec) : text :=
+  let s := strip_dot0 (dec_str d) in
+  match split_at 69 s with
+  | (m, Some (sg :: digs)) => m ++ 69 :: sg :: rjust3 digs
+  | _ => s
+  end.
+
+(* Decimal(text) on the subset [-]digits[.digits][E(+|-)digits]; _int = str(int(intpart + fracpart)) drops leading zeros *)
+Fixpoint lstrip0 (l : text) : text :=
+  match l with
+  | [] => [48]
+  | c :: r => if c =? 48 then lstrip0 r else l
+  end.
+Definition all_digits (l : text) : bool := forallb is_digit l.
+Definition dec_parse (s : text) : option dec :=
+  let neg := match s with c :: _ => c =? 45 | [] => false end in
+  let body := if neg then tl s else s in
+  let mant := fst (split_at 69 body) in
+  let ip := fst (split_at 46 mant) in
+  let fp := match snd (split_at 46 mant) with Some f => f | None => [] end in
+  let ex := match snd (split_at 69 body) with
+            | None => Some 0
+            | Some [] => None
+            | Some (sg :: digs) =>
+                if all_digits digs then
+                  match text_nat digs with
+                  | Some n => if sg =? 43 then Some (Z.of_N n) else if sg =? 45 then Some (- Z.of_N n) else None
+                  | None => None
+                  end
+                else None
+            end in
+  match ip ++ fp, ex with
+  | [], _ => None
+  | _, None => None
+  | ds, Some e => if all_digits ds then Some (neg, lstrip0 ds, e - Z.of_nat (length fp)) else None
+  end.
+(* value of a digit string *)
+Definition dval (l : text) : Z := fold_left (fun a c => 10 * a + (c - 48)) l 0.
+(* Decimal._int: digits only, no leading zero unless it is "0" *)
+Definition canonical (ds : text) : Prop := ds <> [] /\ all_digits ds = true /\ (ds = [48] \/ hd 0 ds <> 48).
